@@ -320,6 +320,51 @@ impl Gen {
                 bx(Expr::StructLit("T", vec![("c", c)], vec![w])),
             )
         })));
+        // struct literals with two and three composition sources over structs with disjoint fields
+        ops.push(op("comp2_W", Int, &[Int, Bool, Int], &[true, true, true], Box::new(|n, mut a| {
+            let z = a.pop().unwrap();
+            let q = a.pop().unwrap();
+            let (w1, w2) = (n.fresh("w"), n.fresh("w"));
+            Expr::Block(
+                vec![
+                    Stmt::Let(w1.clone(), Expr::StructLit("P", vec![("p", a.pop().unwrap())], vec![])),
+                    Stmt::Let(w2.clone(), Expr::StructLit("Q", vec![("q", q)], vec![])),
+                ],
+                bx(Expr::Dot(bx(Expr::StructLit("W", vec![("r", Expr::Str("a")), ("z", z)], vec![w1, w2])), "p")),
+            )
+        })));
+        ops.push(op("comp3_W", Bool, &[Int, Bool, Str, Int], &[true, true, true, true], Box::new(|n, mut a| {
+            let z = a.pop().unwrap();
+            let r = a.pop().unwrap();
+            let q = a.pop().unwrap();
+            let (w1, w2, w3) = (n.fresh("w"), n.fresh("w"), n.fresh("w"));
+            Expr::Block(
+                vec![
+                    Stmt::Let(w1.clone(), Expr::StructLit("P", vec![("p", a.pop().unwrap())], vec![])),
+                    Stmt::Let(w2.clone(), Expr::StructLit("Q", vec![("q", q)], vec![])),
+                    Stmt::Let(w3.clone(), Expr::StructLit("R", vec![("r", r)], vec![])),
+                ],
+                bx(Expr::Dot(bx(Expr::StructLit("W", vec![("z", z)], vec![w3, w1, w2])), "q")),
+            )
+        })));
+        ops.push(op("comp3_W_eq", Bool, &[Int, Bool, Str], &[true, true, true], Box::new(|n, mut a| {
+            let r = a.pop().unwrap();
+            let q = a.pop().unwrap();
+            let p = a.pop().unwrap();
+            let (w1, w2, w3) = (n.fresh("w"), n.fresh("w"), n.fresh("w"));
+            Expr::Block(
+                vec![
+                    Stmt::Let(w1.clone(), Expr::StructLit("P", vec![("p", p.clone())], vec![])),
+                    Stmt::Let(w2.clone(), Expr::StructLit("Q", vec![("q", q.clone())], vec![])),
+                    Stmt::Let(w3.clone(), Expr::StructLit("R", vec![("r", r.clone())], vec![])),
+                ],
+                bx(Expr::Bin(
+                    Bin::Eq,
+                    bx(Expr::StructLit("W", vec![("z", Expr::Int(0))], vec![w1, w2, w3])),
+                    bx(Expr::StructLit("W", vec![("p", p), ("q", q), ("r", r), ("z", Expr::Int(0))], vec![])),
+                )),
+            )
+        })));
         ops.push(op("substruct_T_S", S, &[T], &[false], Box::new(|_, mut a| Expr::Substruct(bx(a.remove(0)), "S"))));
         ops.push(op("substruct_S_S", S, &[S], &[false], Box::new(|_, mut a| Expr::Substruct(bx(a.remove(0)), "S"))));
         ops.push(op("substruct_S2_S", S, &[S2], &[false], Box::new(|_, mut a| Expr::Substruct(bx(a.remove(0)), "S"))));
